@@ -5,12 +5,20 @@ RULE = ("random fill sequences (length 1-30 quick / 1-60 thorough) on a bare Pos
         "that meet an open position are exact closes, mirror flips, flips with a grid remainder or half reductions; duplicate trade ids 3 %; "
         "12 % of the cases additionally carry inputs outside the property's quantifier (negative quantity, rebate, second instrument on a bare "
         "manager, unknown instrument -> panic) which are compared model-vs-code only. Thorough additionally enumerates every sequence of length "
-        "<= 4 over side x qty{1,2,3} x (price,fee){(100,1),(150,0)} (22 620 sequences). A case is distinct by the SHA-1 of its op lines and "
+        "<= 4 over side x qty{1,2,3} x (price,fee){(100,1),(150,0)} (22 620 sequences). On top of these, from a generator of their own (N/8 cases each): "
+        "DECIMAL SHAPES - the same histories with 8-decimal prices / fees, quantities using all four decimals, and 40 % of the operands written NOT normalised "
+        "(`1.5000`, `1.500000`) so that equal values meet with different scales; EXACT HUGE magnitudes - whole quantities of 1e8..4e9 units at prices around 1e6 "
+        "(notional 1e14..4e15; the grids above stop at 7e8) where every quantity ratio the code forms is a power of two (a position is increased only by doubling, "
+        "at most three times per life, reduced by halving, closed exactly, flipped to its mirror, or flipped with a remainder at zero fee), so rust_decimal computes "
+        "the entry average, the pro-rata fees and the unrealised estimate without rounding and the tolerance plays no role. A case is distinct by the SHA-1 of its op lines and "
         "non-trivial when the implementation's observation changes at least once")
 ASSUMPTIONS = [
     "every fill has quantity > 0 (quantity = 0 makes rust_decimal panic on a division by zero in approximate_remaining_exit_fees; rejected as bad-op by harness and model)",
     "all fills of a history are on one instrument (the engine routes by instrument; per-instrument independence is theorem engine_routes_per_instrument)",
     "exact rational arithmetic: the 'up to decimal rounding' of the property is the 1e-18 tolerance of the correspondence, not part of the theorems",
+    "magnitudes: generated notionals stay below 4e15 and, above 1e9, inside the regime that rust_decimal computes exactly; beyond that the 1e-18 tolerance (relative to the "
+    "compared value, not to the magnitudes that produced it) would flag rounding of differences of large values, and for price x quantity >= 7.9e28 the real code panics "
+    "(`multiplication overflowed` in update_price_entry_average; witness kept outside the corpus) - overflow and rounding of rust_decimal are not modelled",
     "the arithmetic kernels calculate_price_entry_average / calculate_pnl_realised / calculate_pnl_unrealised / approximate_remaining_exit_fees (position.rs) and enum Side (barter-instrument/src/lib.rs) are additionally tied to the source by translation: tools/rust2lean.py regenerates their Lean definitions from the current Rust text before every build (PREBUILD) and theorem kernels_agree_with_source proves them equal to the model's definitions for all arguments; trusted there: the translator's reading of the small Rust subset it accepts (it rejects everything else) and its fixed Decimal prelude (abs, is_zero, checked_div = None exactly on a zero divisor, MAX/MIN)",
 ]
 SOURCE_FILES = ["barter/src/engine/state/position.rs", "barter/src/engine/state/instrument/mod.rs", "barter-execution/src/trade.rs",
